@@ -52,8 +52,26 @@ _PRODS: set = set()
 _orig_parse = rust_parser.parse
 
 
+_EDGES: set = set()
+_EDGE_POS = None            # {(production id, rhs position)} whose child production is recorded (C01_EDGE_FILE)
+
+
+def _edge_positions():
+    global _EDGE_POS
+    if _EDGE_POS is None:
+        _EDGE_POS = set()
+        f = os.environ.get('C01_EDGE_FILE')
+        if f and os.path.exists(f):
+            try:
+                _EDGE_POS = {(int(a), int(b)) for a, b in json.load(open(f))}
+            except Exception:  # noqa: BLE001
+                _EDGE_POS = set()
+    return _EDGE_POS
+
+
 def _walk_cst(node, acc):
     stack = [node]
+    epos = _edge_positions()
     while stack:
         n = stack.pop()
         p = getattr(n, 'production', None)
@@ -61,6 +79,13 @@ def _walk_cst(node, acc):
             acc.add(p.id)
             for i in (getattr(p, '_inlined_ids', None) or ()):
                 acc.add(i)
+            if epos:
+                for i, a in enumerate(p.args):
+                    if (p.id, i) in epos:
+                        c = getattr(a, 'production', None)
+                        if c is not None:
+                            inl = getattr(c, '_inlined_ids', None)
+                            _EDGES.add((p.id, i, inl[-1] if inl else c.id))
             stack.extend(p.args)
 
 
@@ -132,7 +157,8 @@ def canon(x):
 #  N1  `CREATE <ptr|global|alias> n { USING (e) }`  ==  `CREATE ... n := e`: the block form stores e in
 #      .target AND as the single command SetField(expr); the `:=` form only in .target.  The command is
 #      dropped only when its value is identical to .target.
-#  N2  a Shape with no elements == its subject  (upstream test_edgeql_syntax_shape_64 expects `Foo{}` -> `Foo`)
+#  N2  a Shape with no elements == its subject  (upstream test_edgeql_syntax_shape_64 expects `Foo{}` -> `Foo`);
+#      N2': the path that results is flattened the way the grammar flattens it: `(a.b {}).c` == `a.b.c`, `(.a {}).c` == `.a.c`
 #  N3  CreateMigration.parent ObjectRef('initial')  ==  no parent (edb/schema/migrations.py treats them alike)
 #  N4  trigger / rewrite / access-policy kind lists are sets (printed sorted, duplicates merged)
 #  N5  (inside an SDL Schema node, printer not `unsorted`) the order of declarations / commands in a body is
@@ -151,10 +177,18 @@ def normalise(n, sort_schema=False, in_schema=False):
         if name == 'Shape' and 'elements' not in d and 'expr' in d:
             return d['expr']                                                    # N2
         if name == 'Path' and isinstance(d.get('steps'), list) and d['steps'] and _is_node(d['steps'][0]) \
-                and d['steps'][0][0] == 'Path' and not nfields(d['steps'][0]).get('partial') \
-                and len(d['steps']) > 1:
-            inner = nfields(d['steps'][0]).get('steps') or []
-            fields = [[k, (inner + v[1:]) if k == 'steps' else v] for k, v in fields]   # N2' (never produced by the parser)
+                and d['steps'][0][0] == 'Path' and len(d['steps']) > 1 \
+                and not (d.get('partial') and nfields(d['steps'][0]).get('partial')):
+            # N2' (never produced by the parser itself, only by N2): `(a.b {}).c` == `a.b.c`, and with a partial
+            # subject `(.a {}).c` == `.a.c` (the printer writes `(.a).c`, which the grammar reads as one partial path)
+            innerd = nfields(d['steps'][0])
+            inner = innerd.get('steps') or []
+            fields = [[k, (inner + v[1:]) if k == 'steps' else v] for k, v in fields]
+            if innerd.get('partial'):
+                if any(k == 'partial' for k, _ in fields):
+                    fields = [[k, True if k == 'partial' else v] for k, v in fields]
+                else:
+                    fields = fields + [['partial', True]]
             d = dict((k, v) for k, v in fields)
         if 'commands' in d and 'target' in d and isinstance(d['commands'], list) and len(d['commands']) == 1:
             c = d['commands'][0]
@@ -419,6 +453,14 @@ def ast_features(c):
                 feats.add('alter-empty')
             if cls == 'NestedQLBlock':
                 feats.add('nested-ql-block')
+            if cls == 'CreateOperator' and 'commands' not in d and _is_node(d.get('code')):
+                cd_ = nfields(d['code'])
+                if sum(1 for z in ('from_operator', 'from_function', 'code') if z in cd_) >= 2:
+                    feats.add('operator-multi-using-bare')
+            if cls in ('CreateFunction', 'AlterFunction') and _is_node(d.get('code')):
+                cd_ = nfields(d['code'])
+                if 'from_function' in cd_ and ('code' in cd_ or 'nativecode' in d):
+                    feats.add('function-from-function-plus-body')
             if cls == 'Shape' and 'elements' not in d:
                 feats.add('empty-shape')
             if cls == 'UpdateQuery' and 'shape' not in d:
@@ -650,6 +692,7 @@ class Reject(Exception):
 def explore_one(entry, text):
     res = {'acc': 0}
     _PRODS.clear()
+    _EDGES.clear()
     try:
         t1 = parse_entry(entry, text)
     except errors.EdgeQLSyntaxError as e:
@@ -666,6 +709,8 @@ def explore_one(entry, text):
         return res
     res['acc'] = 1
     res['prods'] = sorted(_PRODS)
+    if _EDGES:
+        res['edges'] = sorted(_EDGES)
     c1raw = canon(t1)
     c1 = normalise(c1raw)
     c1s = None
@@ -724,6 +769,18 @@ def explore_one(entry, text):
         except Exception as e:
             fails.append({'mode': mname, 'kind': 'print-error', 'detail': 'second print: ' + type(e).__name__})
             continue
+        if s2 != s1 and 'empty-shape' in res['feats']:
+            # N2/N2' changed the tree (`(.a {}).b` is printed `(.a).b`, which the grammar reads as the one partial path
+            # `.a.b`): the first print is made from a tree the parser never builds again, so byte stability is asked
+            # of the NEXT round instead: print(parse(S2)) == S2 and the same (normalised) tree.
+            try:
+                t3 = reparse_entry(entry, s2)
+                s3 = qlcodegen.generate_source(printable(entry, t3), **kw)
+                if s3 == s2 and normalise(canon(t3), sorts) == cb:
+                    res['n2_second_round'] = res.get('n2_second_round', 0) + 1
+                    continue
+            except Exception:  # noqa: BLE001
+                pass
         if s2 != s1:
             ws = lex_kinds(s1) == lex_kinds(s2)
             fails.append({'mode': mname, 'kind': 'idem', 'sig': 'ws-only' if ws else 'tokens-differ',
@@ -773,6 +830,8 @@ def main_grammar():
         prods.append({'lhs': p.lhs.name, 'rhs': [s.name for s in p.rhs],
                       'term': [isinstance(s, type(spec._eoi)) for s in p.rhs],
                       'method': getattr(p.method, '__name__', str(p.method)),
+                      'qual': list(str(getattr(p, 'qualified', '')).split('.')[-2:]),
+                      'inline': getattr(p.method, 'inline_index', None),
                       'prec': p.prec.name if p.prec is not None else None})
     toks = {n: (t.prec.name if t.prec is not None else None) for n, t in spec._tokens.items()}
     precs = {n: {'assoc': p.assoc, 'rel': {k: v for k, v in p.relationships.items()}}
@@ -799,7 +858,7 @@ def main_grammar():
 # ------------------------------------------------------------------ core correspondence
 # Terms of coq/theories/C01/Model.v in prefix notation (see ocaml/c01_main.ml):
 #   C k nneg v | P i | R m n k step* | Q k step* | X e k step* | U op e | B oid l r | I neg l type |
-#   F py c a b | S T|A|S k e* | N k (n e)* | K m f ka e* kk (n e)* | T opt type e | D k e (sl a? b?)* |
+#   F py c a b | S T|A|S k e* | N k (n e)* | K m f ka e* kk (n e)* | T 0|1|2 type e | D k e (sl a? b?)* |
 #   A e | G m n | H e k (n e?)*        step: p bw n | a n | i type     type: n m n | c m n k type*
 # Leaves are indexes into the tables below (the model treats them as opaque numbers).
 
@@ -939,10 +998,9 @@ class TermReader:
                 kw[n] = self.expr()
             return q.FunctionCall(func=(m, f) if m is not None else f, args=args, kwargs=kw)
         if k == 'T':
-            opt = self.nxt() == '1'
+            cm = {'0': None, '1': q.CardinalityModifier.Optional, '2': q.CardinalityModifier.Required}[self.nxt()]
             t = self.typ()
-            return q.TypeCast(type=t, expr=self.expr(),
-                              cardinality_mod=q.CardinalityModifier.Optional if opt else None)
+            return q.TypeCast(type=t, expr=self.expr(), cardinality_mod=cm)
         if k == 'D':
             cnt = int(self.nxt())
             e = self.expr()
@@ -1082,9 +1140,8 @@ def to_term(e):
         kw = ' '.join(f'{_idx(NAMES, n)} {to_term(x)}' for n, x in e.kwargs.items())
         return ' '.join(z for z in [f'K {t_name(m, f)} {len(e.args)}', a, str(len(e.kwargs)), kw] if z != '')
     if ty is q.TypeCast:
-        if e.cardinality_mod not in (None, q.CardinalityModifier.Optional):
-            raise Unsupported('cast modifier')
-        return f'T {1 if e.cardinality_mod is not None else 0} {t_type(e.type)} {to_term(e.expr)}'
+        cm = {None: 0, q.CardinalityModifier.Optional: 1, q.CardinalityModifier.Required: 2}[e.cardinality_mod]
+        return f'T {cm} {t_type(e.type)} {to_term(e.expr)}'
     if ty is q.Indirection:
         out = [f'D {len(e.indirection)} {to_term(e.arg)}']
         for ix in e.indirection:
